@@ -32,7 +32,9 @@ def eq(a, b, tol):
 def main():
   rep = vlib.Report(PROP, "proof")
   gen = layercalls.emit(vlib.GEN)
-  info = vlib.build_obligations(PROP, gen_files=[gen])
+  from translate import deconvgen
+  dgen = deconvgen.emit(vlib.GEN)
+  info = vlib.build_obligations(PROP, gen_files=[gen, dgen])
   errs = rep.obligations(info, "python3 tools/translate/layercalls.py coq/gen && coqc coq/gen/LayerCalls.v && coqc coq/theories/Properties/C11.v")
   for e in errs:
     rep.violation("obligation-" + os.path.basename(e["file"]), "proof obligation no longer checks: " + e["error"][-600:],
